@@ -104,6 +104,17 @@ CLAIMED = {
              'with mixed known/unknown prefixes are outside the total-preorder hypothesis (C11 known class).',
         technique='Lean 4 proof (abstract FS independence, sort permutation invariance) + history runs in-process + repeated real builds hashed',
         ref='8/C02'),
+    'C19': dict(
+        text='The layout contract is a decidable Lean predicate (Layout.ok / Layout.absOk) evaluated, exhaustively, on every profile '
+             'file and abstraction of the working tree on every run, together with uniqueness of base names; Lean theorems state what '
+             'the contract gives the build tasks for every conforming file (own header found, ABI line and local include present, '
+             'attachment through @{exec_path} defined in the preamble) and that unique base names make the flat directory lossless '
+             '(with the collision counterexample). The real prepare stage is cross-checked: no source profile is missing from the '
+             'flat build directory.',
+        note='Trusted: Lean kernel for the theorems; the per-file instances are evaluated by the compiled predicate (Lean compiler '
+             'trusted), not kernel-checked per file; the predicate is my reading of the property and of tests/check.sh.',
+        technique='Lean 4 decidable predicate evaluated exhaustively on the tree + Lean theorems on what the contract implies',
+        ref='8/C19'),
 }
 
 REASON_TODO = 'check not built yet in this round; no claim is made (see DESIGN.md section 13)'
